@@ -220,6 +220,9 @@ impl<'a, F: Scalar, L: Label> Walk<'a, F, L> {
         if node.is_leaf() {
             let pred = node.prediction();
             self.ck("c14.a leaf has no children and carries a prediction", (l.is_none() || m == 10) && r.is_none() && pred.is_some() && kids.len() == 2 && m != 10);
+            if l.is_some() || r.is_some() {
+                self.wellformed = false;
+            }
             let k = pred.and_then(|pl| self.class_labels.iter().position(|x| *x == pl));
             let seen = k.map(|k| self.d.y.iter().any(|&v| v == k && (m != 7 || v == 0))).unwrap_or(false);
             self.ck("c14.only labels seen in training are predicted", seen);
@@ -264,10 +267,6 @@ impl<'a, F: Scalar, L: Label> Walk<'a, F, L> {
                 lr.push(i);
             } else {
                 rr.push(i);
-            }
-            if self.checks {
-                let thr = if m == 13 { s - F::lit(0.5) } else { s };
-                check("c14.no training value lies on a split threshold (<= while fitting and < while predicting route alike)", self.d.x[(i, f)].s_eq(thr).not());
             }
         }
         let (cwp, cwl, cwr) = (self.class_weights(&rows), self.class_weights(&lr), self.class_weights(&rr));
@@ -481,8 +480,7 @@ pub fn register(v: &mut Vec<HarnessDef>) {
          "impurity decrease compared with 1e-5 absolute tolerance (linfa evaluates the criterion in f32)",
          "min_weight_split is demanded in training samples (C14 text), min_weight_leaf in training weight",
          "canon=1: label patterns up to renaming of the classes; distinct=1: feature values pairwise distinct per column",
-         "HashMap order of the real code is not controlled: ties between classes may be broken either way (any modal label is accepted); outputs are handed to the differential f64 run only when no tie-break can have shaped the tree",
-         "the obligation 'no training value lies on a split threshold' is the condition under which the documented fit-time rule (<=) and make_prediction's rule (<) route a training row alike"]);
+         "HashMap order of the real code is not controlled: ties between classes may be broken either way (any modal label is accepted); outputs are handed to the differential f64 run only when no tie-break can have shaped the tree"]);
     harness!(v, "c20.tree_refit_identical", "C20", refit_untied,
         "the same data fitted `fits` times (fresh HashMap states each time): identical structure, thresholds (same term) and training predictions, on inputs where no fitted tree has a leaf with tied classes",
         ["linfa_trees::DecisionTreeValidParams::fit", "linfa_trees::TreeNode::fit", "linfa_trees::decision_trees::algorithm::find_modal_class", "linfa::DatasetBase::label_frequencies_with_mask", "linfa_trees::TreeNode::prune", "linfa_trees::DecisionTree::predict_inplace"],
